@@ -247,10 +247,16 @@ prop(id="C10", vfile="Properties/C10.v",
 prop(id="C09", vfile="Properties/C09.v",
      runs=lambda tier, seed: [dict(profile="node", seed=seed + 7, n=_sizes(tier, 100, 2500), extra=["-blocks", "10"]),
                               dict(profile="node", seed=seed + 11, n=_sizes(tier, 12, 600), extra=["-blocks", "8"], second_process=True),
-                              dict(profile="aollist", seed=seed, n=_sizes(tier, 16, 500), extra=["-blocks", "4", "-twin"])],
+                              dict(profile="aollist", seed=seed, n=_sizes(tier, 16, 500), extra=["-blocks", "4", "-twin"])] +
+                             # short single-kind runs, each in a process of its own: whatever a process does only once (a lazily
+                             # initialised package variable, a sync.Once) is exercised by a different first operation in each
+                             [dict(profile="node", seed=seed + 100 + 7 * i, n=_sizes(tier, 2, 6), extra=["-blocks", "5", "-kind", k])
+                              for i in range(_sizes(tier, 2, 6)) for k in ("did", "aol", "pnft")],
      rule=NODE_RULE + " || the twin replica is a second application object in the same process initialised from the same genesis bytes "
           "(Go randomises map iteration per range statement, so map order differs between the two); a third run is repeated in "
-          "a second process with GOMAXPROCS=1, another TZ and another start time and all application hashes are compared",
+          "a second process with GOMAXPROCS=1, another TZ and another start time and all application hashes are compared; six (thorough: 18) "
+          "further short runs of one inner kind each (did, aol, pnft) are made in processes of their own, so that anything a process does "
+          "only once is met by a different first operation (a delivered transaction here, a simulation or a query there)",
      assumptions=CHAIN_ASSUME + ["the model's transition is a function of (state, block time, transactions): determinism of the model is by "
                                  "construction; the theorems decide independence from side traffic, restarts and genesis map order, and the "
                                  "source tie (footprint) decides the absence of clock/randomness/goroutine/environment reads"],
